@@ -363,21 +363,6 @@ theorem idx_onBlockUpdated {s : St} (h : Idx s) (b : Nat) (aff : Option Nat) (es
         · simp [hxb] at this
         · simpa [hxb] using this⟩
 
-theorem idx_onBlockOther {s : St} (h : Idx s) (b : Nat) (es : List Entry) : Idx (onBlockOther s b es) := by
-  unfold onBlockOther
-  simp only
-  refine Idx.of_fr (s := emptyStage (upsertAll s b es) b es.isEmpty none) ?_ (Fr.trans (fr_releaseAll _ _) ⟨rfl, rfl, rfl, rfl⟩)
-  have f2 := fr_upsertAll s b es
-  generalize upsertAll s b es = s2 at *
-  unfold emptyStage
-  show IdxF s2.nodesByBlock s2.blocksByNode (s2.emptyBlocks.del b)
-  rw [f2.1, f2.2.1, f2.2.2.1]
-  exact ⟨h.mem, h.nodup, fun x n hx => by
-    rw [AMap.get_del] at hx
-    by_cases hxb : x = b
-    · simp [hxb] at hx
-    · simp only [hxb, if_false] at hx; exact h.empty x n hx⟩
-
 /-! ### `garbageCollectKnownLeaks` relative to its INPUT state -/
 
 /-- the allocations after some leaks were resurrected: those with an id in `R` are reset -/
